@@ -147,6 +147,18 @@ func genC02(g *gen) {
 			}
 		}
 	}
+	// scalar views (every axis picked by a single index) and scalar tensors sliced again with the empty slice list, read,
+	// materialised, cloned; one-element windows cut by ranges
+	for _, src := range srcs {
+		for _, dt := range []string{"i16", "f64", "str"} {
+			for _, pick := range []string{"1,2", "0,0", "2,3"} {
+				g.emit(fmt.Sprintf("new %s 3,4 %s", dt, src), "slice $0 "+pick, "dump $1", "slice $1 -", "dump $2", "at $2 -", "mat $2", "dump $3", "clone $2", "dump $4", "setat $2 -", "dump $0")
+			}
+			g.emit(fmt.Sprintf("new %s - %s", dt, src), "slice $0 -", "dump $1", "at $1 -", "slice $1 -", "dump $2", "mat $1", "dump $3")
+			g.emit(fmt.Sprintf("new %s 5 %s", dt, src), "slice $0 3", "slice $1 -", "dump $2", "at $2 -", "clone $2", "dump $3")
+			g.emit(fmt.Sprintf("new %s 3,4 %s", dt, src), "slice $0 1:2,2:3", "dump $1", "slice $1 0,0", "dump $2", "slice $2 -", "dump $3", "at $3 -")
+		}
+	}
 	// rank 1: complete space, all sources
 	for d := 1; d <= maxd+1; d++ {
 		for k, a := range fullAxisSpace(d) {
@@ -577,6 +589,25 @@ func genC04(g *gen) {
 			}
 			steps = append(steps, "gc", fmt.Sprintf("dump $%d", v), "gc", fmt.Sprintf("dump $%d", v), "dump $0")
 			g.emit(steps...)
+		}
+	}
+	// a copy shares nothing with its source, the metadata included: the clone of a lazily transposed tensor is moved
+	// physically (or handed back to the pool) and the source's pending transposition is then undone - and the other
+	// way round; the same through the copying transposition and the materialisation of a transposed view
+	for _, dt := range []string{"i16", "f64", "str"} {
+		for _, shp := range [][2]string{{"3,4", "1,0"}, {"2,3,2", "2,0,1"}, {"2,3,2", "0,2,1"}} {
+			for _, cp := range []string{"clone $0", "safeT $0 -"} {
+				for _, later := range [][]string{{"transpose $1", "UT $0"}, {"transpose $0", "UT $1"}, {"ret $1", "new " + dt + " 2,2 C", "T $2 1,0", "UT $0"},
+					{"UT $1", "T $1 " + shp[1], "transpose $1", "UT $0"}, {"transpose $1", "T $0 " + shp[1]}} {
+					steps := []string{fmt.Sprintf("new %s %s C", dt, shp[0]), "T $0 " + shp[1], cp}
+					steps = append(steps, later...)
+					steps = append(steps, "dump $0")
+					if later[0] != "ret $1" {
+						steps = append(steps, "dump $1")
+					}
+					g.emit(steps...)
+				}
+			}
 		}
 	}
 	for k := 0; k < n; k++ {
